@@ -326,6 +326,7 @@ func c19(c *Ctx) {
 	// its bytes in package-level storage
 	// "creating a client does not reseed any generator those secrets depend on": the draws read crypto/rand.Reader at
 	// the moment they are made, so the variable itself is part of the source - nothing in the repository assigns it
+	c.failedDrawIsNoSecret("R19.E")
 	r.Rule("R19.W", "no function of the repository stores to crypto/rand.Reader (or to any other package-level variable of crypto/rand / math/rand): the process-wide source every draw reads is never replaced", 1)
 	{
 		n, bad := 0, 0
